@@ -142,6 +142,10 @@ func genWake(r *run.R, i int) *scenario {
 	if rng.IntN(3) == 0 {
 		sc.Init = append(sc.Init, "limited")
 	}
+	if rng.IntN(3) == 0 {
+		// next to the limited conn a direct one whose transport has died but which the swarm has not reaped
+		sc.Init = append(sc.Init, "stale-direct")
+	}
 	n := 1 + rng.IntN(3)
 	for k := 0; k < n; k++ {
 		c := call{Kind: "newstream", At: []int{0, 0, 1, 5}[rng.IntN(4)], CancelAtMs: -1, NoDial: rng.IntN(2) == 0}
@@ -309,10 +313,24 @@ func runScenario(t *testing.T, r *run.R, sc *scenario, _ int) (res result) {
 				closeKind("all")
 			}
 		}
+		staleDirect := false
 		for _, k := range sc.Init {
+			if k == "stale-direct" {
+				staleDirect = true
+				k = "direct"
+			}
 			inject(k)
 		}
 		synctest.Wait()
+		if staleDirect {
+			// the direct connection's transport dies without the swarm noticing: it stays registered, unusable
+			for _, fc := range rig.TCP.Conns() {
+				fc.DieSilently()
+			}
+			adm.mu.Lock()
+			adm.direct = nil // only connections announced from now on count as "a direct connection appeared"
+			adm.mu.Unlock()
+		}
 		var mu sync.Mutex
 		var wg sync.WaitGroup
 		regOnce := sync.Once{}
@@ -508,8 +526,11 @@ func check(sc *scenario, res *result) (out []finding, st map[string]int) {
 		}
 	}
 	onlyLimitedAtStart, nothingCloses := len(sc.Init) > 0, true
+	stale := false
 	for _, k := range sc.Init {
-		if k != "limited" {
+		if k == "stale-direct" {
+			stale = true // dead from the start: not a usable direct connection
+		} else if k != "limited" {
 			onlyLimitedAtStart = false
 		}
 	}
@@ -601,6 +622,9 @@ func check(sc *scenario, res *result) (out []finding, st map[string]int) {
 		}
 		if c.Kind == "newstream" && !c.AllowLimited && cr.Err == "" && onlyLimitedAtStart && nothingCloses && len(res.DirectAdmitted) > 0 {
 			st["waiters_served_by_a_late_direct_conn"]++
+			if stale {
+				st["waiters_served_next_to_a_dead_unreaped_direct_conn"]++
+			}
 		}
 		// "otherwise the call waits for a direct connection and fails if none appears in time": bounded by the
 		// smallest applicable timeout (+ scheduling of the same virtual instant)
@@ -630,6 +654,9 @@ func check(sc *scenario, res *result) (out []finding, st map[string]int) {
 	}
 	// "a peer reachable only over limited connections is reported as Limited rather than Connected"
 	for _, s := range res.Samples {
+		if stale {
+			break // the scenario holds a dead, unreaped conn on purpose: what the swarm reports meanwhile is not judged
+		}
 		want := network.NotConnected.String()
 		if s.Direct > 0 {
 			want = network.Connected.String()
@@ -693,9 +720,11 @@ func TestC12(t *testing.T) {
 	})
 	holepunchPart(t, r)
 	hostPart(t, r)
+	upgraderKeepsLimited(t, r)
 	r.Require("waiter_registrations", 200)
 	r.Require("events_placed_before_registration", 50)
 	r.Require("waiters_served_by_a_late_direct_conn", 100)
+	r.Require("waiters_served_next_to_a_dead_unreaped_direct_conn", 30)
 	r.Require("streams_on_direct", 200)
 	r.Require("streams_on_limited_allowed", 50)
 	r.Require("err_limited_conn", 1)
